@@ -79,3 +79,186 @@ Theorem C05_delegation_agrees_with_std : forall cc, CC_ok cc -> forall a e tr,
              trait_name (sp_ty (StdParse.sa_spec sa)) = tr.
 Proof. exact delegation_agrees_with_std. Qed.
 Print Assumptions C05_delegation_agrees_with_std.
+
+(** ---- coverage-growth round: pinned below ---- *)
+From Verif Require Import Fmt.Front C07.Proofs C05.Single C05.Delegation.
+
+(** for EVERY struct / enum variant under every combination of own and enum-level attribute: the body ends in exactly the delegation the governing attribute prescribes (own attribute; the enum-level one when it mentions [_variant] - every variant - or when the variant has none; a bare [{_variant}] of the derived trait counts as absent); without any attribute a single field delegates under the derived trait and nothing else does *)
+Theorem C05_delegation_governed :
+  forall (cc : CharClass) (d : dexpansion) (b : body),
+  d_generate_body cc d = ROk b ->
+  top_delegation b =
+  match governing_attr cc d with
+  | Some a => transparent_call_on_fields cc a (d_fields d)
+  | None => implicit_delegation d
+  end.
+Proof. exact Delegation.delegation_governed. Qed.
+Print Assumptions C05_delegation_governed.
+
+(** the property's condition as an iff over all attributes: the body delegates to [e] under [tr] iff the governing attribute's literal is exactly one modifier-free placeholder of trait [tr] referring to its only argument (no index / index 0 / matching name) or to a binding by name, [e] being that argument (the field binding itself when it is one) - or there is no attribute and the type has a single field *)
+Theorem C05_delegation_textual :
+  forall (cc : CharClass) (d : dexpansion) (b : body) (e : texpr) (tr : trait),
+  d_generate_body cc d = ROk b ->
+  top_delegation b = Some (e, tr) <->
+  match governing_attr cc d with
+  | Some a => exists e0 : expr, delegates_to cc a e0 tr /\ e = field_expr a (d_fields d) e0 tr
+  | None =>
+  exists f : field,
+  fl (d_fields d) = [f] /\
+  tr = d_trait d /\ e = TField match fname f with
+  | Some n => n
+  | None => positional_ident 0
+  end
+  end.
+Proof. exact Delegation.delegation_textual. Qed.
+Print Assumptions C05_delegation_textual.
+
+(** Layer-2 reading for every body shape (write!, delegation, write_str, match .. { _variant => .. }): when the governing attribute delegates, the caller's configuration reaches that argument under the placeholder's trait; in every other case the output does not depend on it *)
+Theorem C05_flags_governed :
+  forall (cc : CharClass) (value out fspec : Type) (render : trait -> value -> fspec -> out)
+  (run : fmt_attr -> list ident -> (ident -> value) -> out) (text_value : out -> value)
+  (name_text : str -> out) (default_fspec : fspec) (eval : texpr -> (ident -> value) -> value)
+  (d : dexpansion) (b : body),
+  d_generate_body cc d = ROk b ->
+  match
+  match governing_attr cc d with
+  | Some a => transparent_call_on_fields cc a (d_fields d)
+  | None => implicit_delegation d
+  end
+  with
+  | Some (e, tr) =>
+  forall (env : ident -> value) (sp : fspec),
+  sem value out fspec render run text_value name_text default_fspec eval b env sp =
+  render tr (eval e (inner_env value out fspec render run text_value name_text default_fspec b env)) sp
+  | None =>
+  forall (env : ident -> value) (sp sp' : fspec),
+  sem value out fspec render run text_value name_text default_fspec eval b env sp =
+  sem value out fspec render run text_value name_text default_fspec eval b env sp'
+  end.
+Proof. exact Delegation.flags_governed. Qed.
+Print Assumptions C05_flags_governed.
+
+(** pass-through for any body that ends in a delegation *)
+Theorem C05_sem_delegation :
+  forall (value out fspec : Type) (render : trait -> value -> fspec -> out)
+  (run : fmt_attr -> list ident -> (ident -> value) -> out) (text_value : out -> value)
+  (name_text : str -> out) (default_fspec : fspec) (eval : texpr -> (ident -> value) -> value)
+  (b : body) (env : ident -> value) (sp : fspec) (e : texpr) (tr : trait),
+  top_delegation b = Some (e, tr) ->
+  sem value out fspec render run text_value name_text default_fspec eval b env sp =
+  render tr (eval e (inner_env value out fspec render run text_value name_text default_fspec b env)) sp.
+Proof. exact Delegation.sem_delegation. Qed.
+Print Assumptions C05_sem_delegation.
+
+(** inertness for any body that does not *)
+Theorem C05_sem_inert :
+  forall (value out fspec : Type) (render : trait -> value -> fspec -> out)
+  (run : fmt_attr -> list ident -> (ident -> value) -> out) (text_value : out -> value)
+  (name_text : str -> out) (default_fspec : fspec) (eval : texpr -> (ident -> value) -> value)
+  (b : body) (env : ident -> value) (sp sp' : fspec),
+  top_delegation b = None ->
+  sem value out fspec render run text_value name_text default_fspec eval b env sp =
+  sem value out fspec render run text_value name_text default_fspec eval b env sp'.
+Proof. exact Delegation.sem_inert. Qed.
+Print Assumptions C05_sem_inert.
+
+(** a bare [{_variant}] under a non-Display derive delegates to the variant's text, a fmt::Arguments, whose Display ignores the configuration (hypothesis): the caller's flags are inert *)
+Theorem C05_bare_variant_non_display_inert :
+  forall (cc : CharClass) (value out fspec : Type) (render : trait -> value -> fspec -> out)
+  (run : fmt_attr -> list ident -> (ident -> value) -> out) (text_value : out -> value)
+  (name_text : str -> out) (default_fspec : fspec) (eval : texpr -> (ident -> value) -> value),
+  (forall (o : out) (env : ident -> value) (sp sp' : fspec),
+  render TrDisplay (eval (TRef (EIdent variant_ident)) (bind value variant_ident (text_value o) env)) sp =
+  render TrDisplay (eval (TRef (EIdent variant_ident)) (bind value variant_ident (text_value o) env)) sp') ->
+  forall (d : dexpansion) (sa : fmt_attr) (b : body) (bs : list bound),
+  d_shared d = Some sa ->
+  transparent_call_on_fields cc sa (d_fields d) = Some (TRef (EIdent variant_ident), TrDisplay) ->
+  mentions_variant cc sa = true ->
+  d_trait d <> TrDisplay ->
+  d_expand_variant cc d = ROk (b, bs) ->
+  forall (env : ident -> value) (sp sp' : fspec),
+  sem value out fspec render run text_value name_text default_fspec eval b env sp =
+  sem value out fspec render run text_value name_text default_fspec eval b env sp'.
+Proof. exact Delegation.bare_variant_non_display_inert. Qed.
+Print Assumptions C05_bare_variant_non_display_inert.
+
+(** Debug delegates only through a struct-/variant-level format *)
+Theorem C05_debug_delegation_governed :
+  forall (cc : CharClass) (g : gexpansion) (b : gbody),
+  g_generate_body cc g = ROk b ->
+  g_top_delegation b =
+  match g_fmt g with
+  | Some a => transparent_call_on_fields cc a (g_fields g)
+  | None => None
+  end.
+Proof. exact Delegation.debug_delegation_governed. Qed.
+Print Assumptions C05_debug_delegation_governed.
+
+(** [transparent_call_on_fields] = [transparent_call] followed by the choice of how the expression is passed *)
+Theorem C05_on_fields_eq :
+  forall (cc : CharClass) (a : fmt_attr) (fs : fields),
+  transparent_call_on_fields cc a fs =
+  match transparent_call cc a with
+  | Some (e, tr) => Some (field_expr a fs e tr, tr)
+  | None => None
+  end.
+Proof. exact Delegation.on_fields_eq. Qed.
+Print Assumptions C05_on_fields_eq.
+
+(** a delegating attribute's literal is one placeholder for [Placeholder::parse_fmt_string] too (same trait, no modifiers) *)
+Theorem C05_transparent_placeholders :
+  forall cc : CharClass,
+  CC_ok cc ->
+  forall (a : fmt_attr) (e : expr) (tr : trait),
+  transparent_call cc a = Some (e, tr) ->
+  exists f : format,
+  format_p cc (lit a) = Some ([], f) /\
+  has_modifiers f = false /\
+  tr = trait_of f /\
+  placeholders cc (lit a) =
+  [{|
+  ph_arg := match f_arg f with
+  | Some x => param_of_arg x
+  | None => Positional 0
+  end;
+  ph_mods := false;
+  ph_trait := tr
+  |}].
+Proof. exact Single.transparent_placeholders. Qed.
+Print Assumptions C05_transparent_placeholders.
+
+(** a literal [parsing::format] consumes entirely is that one placeholder for [parsing::format_string] *)
+Theorem C05_format_string_single :
+  forall cc : CharClass,
+  CC_ok cc -> forall (s : str) (f : format), format_p cc s = Some ([], f) -> format_string cc s = Some [f].
+Proof. exact Single.format_string_single. Qed.
+Print Assumptions C05_format_string_single.
+
+(** a name taken from a literal is never a raw identifier *)
+Theorem C05_format_arg_not_raw :
+  forall cc : CharClass,
+  CC_ok cc ->
+  forall (s r : str) (f : format) (n : str),
+  format_p cc s = Some (r, f) -> f_arg f = Some (AIdent n) -> unraw n = n.
+Proof. exact Single.format_arg_not_raw. Qed.
+Print Assumptions C05_format_arg_not_raw.
+
+(** a placeholder whose index does not denote an existing argument is never a delegation ... *)
+Theorem C05_bad_index_not_delegated :
+  forall (cc : CharClass) (a : fmt_attr) (f : format) (n : N),
+  format_p cc (lit a) = Some ([], f) ->
+  f_arg f = Some (AInt n) -> (length (args a) <= N.to_nat n)%nat -> transparent_call cc a = None.
+Proof. exact Delegation.bad_index_not_delegated. Qed.
+Print Assumptions C05_bad_index_not_delegated.
+
+(** ... the attribute is handed to write! as written, so it is format_args! that refuses it (a compile error rather than a delegation) *)
+Theorem C05_bad_index_written_verbatim :
+  forall (cc : CharClass) (d : dexpansion) (a : fmt_attr) (f : format) (n : N),
+  plain d ->
+  d_fmt d = Some a ->
+  format_p cc (lit a) = Some ([], f) ->
+  f_arg f = Some (AInt n) ->
+  (length (args a) <= N.to_nat n)%nat ->
+  d_generate_body cc d = ROk (BWrite a (additional_deref_args cc a (d_fields d))).
+Proof. exact Delegation.bad_index_written_verbatim. Qed.
+Print Assumptions C05_bad_index_written_verbatim.
